@@ -360,9 +360,58 @@ class FakeResult(object):
     __nonzero__ = __bool__
 
 
+def directed(tier):
+    return [{"kind": "deep", "shape": sh} for sh in ("list", "map", "mixed")]
+
+
+def run_deep(spec, ctx):
+    """Plays nested hundreds of levels deep that differ only at the bottom: either such a play is refused (any exception: the
+    interpreter's recursion limit is a refusal, nothing verifies) or the two digests differ."""
+    from insights.client.apps.ansible import playbook_verifier as pv
+
+    def nest(leaf, depth):
+        v = leaf
+        for i in range(depth):
+            kind = spec["shape"] if spec["shape"] != "mixed" else ("list" if i % 2 else "map")
+            v = [v] if kind == "list" else {"k": v}
+        return v
+
+    def digest(p):
+        def fake_execute(cleaned, sig):
+            return FakeResult(), pv.hash_play(pv.serialize_play(cleaned))
+        saved = pv.execute_verification
+        pv.execute_verification = fake_execute
+        try:
+            return pv.verify_play(p)[1]
+        except BaseException as ex:
+            if isinstance(ex, (KeyboardInterrupt, SystemExit)):
+                raise
+            ctx.seen("deep_play_refusals", type(ex).__name__)
+            return None
+        finally:
+            pv.execute_verification = saved
+    for depth in range(40, 700, 10):
+        plays = []
+        for leaf in ("echo ok", "rm -rf /"):
+            plays.append({"name": "deep", "hosts": "localhost", "tasks": nest({"shell": leaf}, depth),
+                          "vars": {"insights_signature_exclude": "/hosts,/vars/insights_signature", "insights_signature": "c2ln"}})
+        da, db = digest(plays[0]), digest(plays[1])
+        ctx.count("deep_play_pairs")
+        if da is None or db is None:
+            ctx.count("deep_play_pairs_refused")
+            continue
+        ctx.count("digest_pairs_compared")
+        if da == db:
+            ctx.violation("digest-unchanged-by-change-below-deep-nesting", {"depth": depth, "shape": spec["shape"]})
+            return True
+    return True
+
+
 def run_case(spec, ctx):
     import random
     from insights.client.apps.ansible import playbook_verifier as pv
+    if spec.get("kind") == "deep":
+        return run_deep(spec, ctx)
     rng = random.Random(spec["edit_seed"])
     play = decode(spec["play"])
     res = apply_edit(play, spec["edit_kind"], rng)
